@@ -5,6 +5,8 @@ import json, os, shutil, subprocess, sys, time
 pid, n = sys.argv[1], sys.argv[2]
 others = sys.argv[3:]
 wt = f'/tmp/seed-{pid}' if int(n) <= 2 else (f'/tmp/seed2-{pid}' if int(n) <= 4 else (f'/tmp/seed3-{pid}' if int(n) <= 6 else (f'/tmp/seed4-{pid}' if int(n) <= 8 else f'/tmp/seed5-{pid}')))
+if os.environ.get('SEED_WT'):
+    wt = os.environ['SEED_WT']   # a later round's scratch worktree (e.g. /tmp/seed6-Cxx)
 src = f'{wt}/out/{n}'
 sid = f'{pid}-{n}'
 dst = f'/verif/seeded/{sid}'
